@@ -108,7 +108,8 @@ def gen_case(rng):
             m.append([k, v])
         return {"kind": kind, "map": m}
     chars = ["a", "Z", " ", "é", "ß", "€", "雪", "́", "😀", "𝔘", "​", "\t", "􏿿".encode("utf-16", "surrogatepass").decode("utf-16"), "\x7f"]
-    return {"kind": kind, "strings": ["".join(rng.choice(chars) for _ in range(rng.randrange(1, 6))) for _ in range(rng.randrange(1, 4))]}
+    return {"kind": kind, "strings": ["".join(rng.choice(chars) for _ in range(rng.randrange(1, 6))) for _ in range(rng.randrange(1, 4))],
+            "extra": rng.choice([0, 0, 0, 1, 2, -1, -2])}
 
 
 def int_array(tokens, hint):
@@ -152,9 +153,41 @@ def run_case(ctx, case, path):
     kind = case["kind"]
     ERR = {"TypeError": "typeError", "ValueError": "valueError", "KeyError": "keyError"}
     if kind == "text":
+        extra = int(case.get("extra", 0))
+        n_str = len(case["strings"])
+        if n_str + extra < 1:
+            extra = 0
         ws = Workspace.create(path)
-        p = Points.create(ws, vertices=np.zeros((len(case["strings"]), 3)))
+        p = Points.create(ws, vertices=np.zeros((n_str + extra, 3)))
         arr = np.array(case["strings"])
+        if extra:
+            # the text array is shorter (gap: padded with the empty string) or longer (refused) than the geometry
+            d = p.add_data({"t": {"values": np.array(["seed"] * (n_str + extra)), "type": "TEXT", "association": "VERTEX"}})
+            status = "ok"
+            try:
+                d.values = arr.copy()
+            except Exception as e:  # noqa: BLE001
+                status = ERR.get(type(e).__name__, "other:" + type(e).__name__)
+            live = None if d.values is None else [str(x) for x in np.atleast_1d(d.values)]
+            uid = d.uid
+            ws.close()
+            ws = Workspace(path)
+            back_l = [str(x) for x in np.atleast_1d(ws.get_entity(uid)[0].values)]
+            ws.close()
+            if extra < 0:
+                if status == "ok":
+                    failures.append((f"text array of {n_str} entries accepted on {n_str + extra} vertices (live {live}, re-read {back_l})",
+                                     "C08:too-long-accepted:text"))
+                elif back_l != ["seed"] * (n_str + extra):
+                    failures.append((f"refused text assignment changed the stored values to {back_l}", "C08:rejected-but-changed"))
+            else:
+                want = case["strings"] + [""] * extra
+                if status != "ok":
+                    failures.append((f"text array of {n_str} entries refused on {n_str + extra} vertices: {status}", "C08:text-short-rejected"))
+                elif live != want or back_l != want:
+                    failures.append((f"text array of {n_str} entries on {n_str + extra} vertices: live {live}, re-read {back_l}, "
+                                     f"expected the entries followed by empty strings", "C08:gap-not-no-data:text"))
+            return lines, checks, failures
         d = p.add_data({"t": {"values": arr, "type": "TEXT"}})
         uid = d.uid
         ws.close()
